@@ -133,8 +133,16 @@ def run_cases(ctx, vlib, cases, what, prefix, selftest=True):
         c = byid.get(cid, {"phases": []})
         prev = c["phases"][ph - 1]["script"] if 0 < ph <= len(c["phases"]) else ""
         hadload = any("L" in p["script"].replace("LB", "") for p in c["phases"][:ph + 1])
-        return "%s:%s:after=%s:recover=%s:fast=%s:load=%s" % (prefix, name or "rejected", kill_kind(prev), bool(bad.get("recover")),
-                                                        bool(bad.get("fast")), hadload)
+        k = "%s:%s:after=%s:recover=%s:fast=%s:load=%s" % (prefix, name or "rejected", kill_kind(prev), bool(bad.get("recover")),
+                                                     bool(bad.get("fast")), hadload)
+        if bad.get("ev") == "openfail":
+            e = str(bad.get("err", ""))
+            cause = ("reap-lock" if "MSRW conflict" in e else "leftover-wal" if "existing WAL file present" in e
+                     else "restore-failed" if "failed to load any existing snapshots" in e else "other")
+            # is this life a recovery (peers.json written before it)?
+            rec = bool(c["phases"][ph].get("recover")) if 0 <= ph < len(c["phases"]) else False
+            k = "%s:node-does-not-start:cause=%s:recovering=%s:after=%s" % (prefix, cause, rec, kill_kind(prev))
+        return k
 
     def corrupt(rs):
         # a restart that comes back with one write applied twice
